@@ -348,3 +348,87 @@ Theorem C13_inner_stack_independent_of_depth {T} (J : (T -> res T) -> T -> T -> 
   nest_nd J l2 (fun q => g (skipn (List.length pt0) q)) pt0 = nest_nd J l2 g [].
 Proof. exact (nest_nd_independent_of_depth J pt0 l2 g). Qed.
 Print Assumptions C13_inner_stack_independent_of_depth.
+
+(** ** Stacks of any number of levels over the reals (C13_Proofs_Stack.v): the iterated integral, the product for separable integrands, the
+    orientation of the limits of any one axis.  [nest_nd J lims f pt] is the stack of C13_Model.v ([nest_2d]/[nest_3d] continued, theorem
+    C13_stack_of_levels_is_front_end_nesting); [iter_int lims F pt] is the iterated integral, outermost pair of limits first; [iter_ex] says
+    that the integrand of every level is integrable; [sep_val gs q] is the product of the factors g_i at the variable of level i,
+    [prod_int gs lims] the product of the one-dimensional integrals. *)
+From LP Require Import C13_Proofs_Stack.
+
+(** "each argument of the integrand receives the variable of its own pair of limits" - for ANY number of levels (C13_nested_2d / C13_nested_3d are
+    the cases of two and three): under a one-dimensional integrator that is exact on integrable integrands the stack is the iterated integral in
+    which position i of the point carries the variable of the i-th pair of limits. *)
+Theorem C13_stack_is_iterated_integral J (lims : list (R * R)) (F : list R -> R) pt :
+  exact_on_integrable J -> iter_ex lims F pt ->
+  nest_nd J lims (fun q => Ok (F q)) pt = Ok (iter_int lims F pt).
+Proof. exact (fun HJ => nest_nd_exact J lims F HJ pt). Qed.
+Print Assumptions C13_stack_is_iterated_integral.
+
+(** "Integrate_2D/Integrate_3D of a separable integrand equal the product of the one-dimensional integrals" - for ANY number of levels and
+    factors, every orientation of every pair of limits (induction over the list of levels). *)
+Theorem C13_stack_separable_product J (gs : list (R -> R)) (lims : list (R * R)) :
+  exact_on_integrable J -> Forall2 integrable_on gs lims ->
+  nest_nd J lims (fun q => Ok (sep_val gs q)) [] = Ok (prod_int gs lims).
+Proof. exact (nest_nd_separable J gs lims). Qed.
+Print Assumptions C13_stack_separable_product.
+
+(** the same from exactness on the multiples of the factors that occur only (no integrability premise, nothing asked of the integrator on
+    other integrands) - the form that applies to the library's own adaptive rule below *)
+Theorem C13_stack_separable_product_factorwise J (gs : list (R -> R)) (lims : list (R * R)) :
+  Forall2 (exact_on_multiples J) gs lims ->
+  nest_nd J lims (fun q => Ok (sep_val gs q)) [] = Ok (prod_int gs lims).
+Proof. exact (nest_nd_separable_on J gs lims). Qed.
+Print Assumptions C13_stack_separable_product_factorwise.
+
+(** the separable clause WITHOUT any premise on a back end, for "Adaptive-Simpson" and factors of degree <= 5: a stack of any depth, all limits in
+    every orientation (equal ones included), every method_parameter, whatever the boost back ends [I] are ... *)
+Theorem C13_adaptive_simpson_stack_exact_to_degree_5 I p (gs : list (R -> R)) (lims : list (R * R)) :
+  List.Forall is_quintic gs -> List.length gs = List.length lims ->
+  nest_nd (fun h u v => integrate_named ROps I M_AdaptiveSimpson h u v p) lims (fun q => Ok (sep_val gs q)) [] = Ok (prod_int gs lims).
+Proof. exact (stack_adaptive_simpson_quintics I p gs lims). Qed.
+Print Assumptions C13_adaptive_simpson_stack_exact_to_degree_5.
+
+(** ... in particular Integrate_2D and Integrate_3D themselves *)
+Theorem C13_adaptive_simpson_2d_3d_exact_to_degree_5 I MC p (g h k : R -> R) x1 x2 y1 y2 z1 z2 :
+  is_quintic g -> is_quintic h -> is_quintic k ->
+  integrate_2d ROps I MC M_AdaptiveSimpson (fun x y => g x * h y) x1 x2 y1 y2 p = Ok (RInt g x1 x2 * RInt h y1 y2) /\
+  integrate_3d ROps I MC M_AdaptiveSimpson (fun x y z => g x * h y * k z) x1 x2 y1 y2 z1 z2 p = Ok (RInt g x1 x2 * RInt h y1 y2 * RInt k z1 z2).
+Proof. exact (integrate_2d_3d_adaptive_simpson_quintics I MC p g h k x1 x2 y1 y2 z1 z2). Qed.
+Print Assumptions C13_adaptive_simpson_2d_3d_exact_to_degree_5.
+
+(** "reversing the limits negates the result", "all limit orientations per axis": for a one-dimensional integrator that is negated by
+    exchanging its limits ([reversing]) and by negating its integrand ([odd]), exchanging the limits of ANY ONE level of a stack of any depth
+    negates the value of the stack - without any exactness premise, for every integrand (total or terminating). *)
+Theorem C13_stack_reverse_any_level J (l1 l2 : list (R * R)) a b (f : list R -> res R) pt : reversing J -> odd J ->
+  nest_nd J (l1 ++ (b, a) :: l2) f pt = rmap Ropp (nest_nd J (l1 ++ (a, b) :: l2) f pt).
+Proof. exact (fun Hr Ho => nest_nd_reverse_level J l1 l2 a b f Hr Ho pt). Qed.
+Print Assumptions C13_stack_reverse_any_level.
+
+(** Integrate is [reversing] for every method name, back end and integrand (equal limits included); it is [odd] for "Gauss-Legendre_2" (every
+    number of points) and "Adaptive-Simpson" (the test |S2 - S| <= 15 |eps| and Find_Epsilon do not see the sign; induction over the recursion)
+    with no premise, and for the four boost names if the external rule is odd (premise [backend_odd I]). *)
+Theorem C13_integrate_reversing_and_odd I m p :
+  let J := fun g u v => integrate_named ROps I m g u v p in
+  reversing J /\ (m = M_GaussLegendre2 \/ m = M_AdaptiveSimpson -> odd J) /\ (backend_odd I -> odd J).
+Proof. exact (conj (named_reversing I m p) (conj (named_own_odd I m p) (named_odd I m p))). Qed.
+Print Assumptions C13_integrate_reversing_and_odd.
+
+(** hence: exchanging the limits of any one axis of a stack of calls of Integrate of any depth negates the result ... *)
+Theorem C13_reverse_any_axis I m p (l1 l2 : list (R * R)) a b (f : list R -> res R) pt :
+  (backend_odd I \/ m = M_GaussLegendre2 \/ m = M_AdaptiveSimpson) ->
+  let J := fun g u v => integrate_named ROps I m g u v p in
+  nest_nd J (l1 ++ (b, a) :: l2) f pt = rmap Ropp (nest_nd J (l1 ++ (a, b) :: l2) f pt).
+Proof. exact (stack_reverse_axis I m p l1 l2 a b f pt). Qed.
+Print Assumptions C13_reverse_any_axis.
+
+(** ... in particular each of the two axes of Integrate_2D and each of the three of Integrate_3D, for every integrand *)
+Theorem C13_front_ends_reverse_any_axis I MC m p (f2 : R -> R -> R) (f3 : R -> R -> R -> R) x1 x2 y1 y2 z1 z2 :
+  (backend_odd I \/ m = M_GaussLegendre2 \/ m = M_AdaptiveSimpson) -> is_nested_method m = true ->
+  integrate_2d ROps I MC m f2 x2 x1 y1 y2 p = rmap Ropp (integrate_2d ROps I MC m f2 x1 x2 y1 y2 p) /\
+  integrate_2d ROps I MC m f2 x1 x2 y2 y1 p = rmap Ropp (integrate_2d ROps I MC m f2 x1 x2 y1 y2 p) /\
+  integrate_3d ROps I MC m f3 x2 x1 y1 y2 z1 z2 p = rmap Ropp (integrate_3d ROps I MC m f3 x1 x2 y1 y2 z1 z2 p) /\
+  integrate_3d ROps I MC m f3 x1 x2 y2 y1 z1 z2 p = rmap Ropp (integrate_3d ROps I MC m f3 x1 x2 y1 y2 z1 z2 p) /\
+  integrate_3d ROps I MC m f3 x1 x2 y1 y2 z2 z1 p = rmap Ropp (integrate_3d ROps I MC m f3 x1 x2 y1 y2 z1 z2 p).
+Proof. exact (integrate_2d_3d_reverse_axis I MC m p f2 f3 x1 x2 y1 y2 z1 z2). Qed.
+Print Assumptions C13_front_ends_reverse_any_axis.
